@@ -100,6 +100,10 @@ def _create_name_annotation(name: str) -> str:
 
 
 def _replace_if_safeds_keyword(keyword: str) -> str:
+    if "." in keyword:
+        # Qualified names (package paths) are escaped segment by segment
+        return ".".join(_replace_if_safeds_keyword(part) for part in keyword.split("."))
+
     if keyword in {
         "_",
         "and",
